@@ -111,6 +111,42 @@ def check_several_houses(ctx, case):
         ctx.check(True, "ok")
 
 
+def donify(rng, prog):
+    """`done` verbs that list several taskers and named done-conditions that name another frame of the framer:
+      * a framer that has plain auxiliaries gets `done <aux> <aux>` / `done me <aux>` in one of its frames,
+      * an auxiliary's `done me` becomes `done me <another auxiliary of the house>`,
+      * `go .. if aux X in frame F is done` where F is any frame that carries X (not only the frame of the condition)."""
+    for h in prog["houses"]:
+        auxnames = [fr["name"] for fr in h["framers"] if fr["sched"] == "aux"]
+        for fr in h["framers"]:
+            holders = {}
+            for f in fr["frames"]:
+                for st in f["stmts"]:
+                    if st["v"] == "aux" and not st.get("needs"):
+                        holders.setdefault(st["aux"], []).append(f["name"])
+            if fr["sched"] == "aux":
+                for f in fr["frames"]:
+                    for st in f["stmts"]:
+                        if st["v"] == "done" and st.get("who") == ["me"] and len(auxnames) > 1 and rng.random() < 0.4:
+                            st["who"] = ["me", rng.choice([a for a in auxnames if a != fr["name"]])]
+                continue
+            if not holders:
+                continue
+            for f in fr["frames"]:
+                for st in f["stmts"]:
+                    if st["v"] == "go" and len(st.get("needs") or []) == 1 and st["needs"][0].get("n") == "auxdone" \
+                            and st["needs"][0]["which"] in holders and rng.random() < 0.7:
+                        st["needs"][0]["frame"] = rng.choice(holders[st["needs"][0]["which"]])
+            if rng.random() < 0.6:
+                names = sorted(holders)
+                who = rng.sample(names, 2) if len(names) > 1 and rng.random() < 0.7 else ["me", rng.choice(names)]
+                if rng.random() < 0.5:
+                    who.reverse()
+                f = rng.choice(fr["frames"])
+                pos = len([x for x in f["stmts"] if x["v"] == "let"])
+                f["stmts"].insert(pos, {"v": "done", "who": who, "ctx": rng.choice([None, "recur", "exit"])})
+
+
 def worker(ctx, job):
     import random
     from vf.flo import monitors
@@ -120,6 +156,11 @@ def worker(ctx, job):
         common.flo_worker(ctx, {"items": job["susp"]}, FEATS_SUSP, [monitors.aux_monitor, monitors.bracket_monitor],
                           nontrivial=lambda d: d.get("aux_activations", 0) >= 3, sem_flags=("condaux_truncated", "transition_while_suspended",
                                                                                             "exit_all_while_suspended"))
+    if job.get("dn"):
+        before = ctx.hits.get("done_need_named", 0)
+        common.flo_worker(ctx, {"items": job["dn"]}, FEATS, [monitors.aux_monitor, monitors.bracket_monitor], mutate=donify,
+                          nontrivial=lambda d: d.get("aux_activations", 0) >= 3, sem_flags=("aux_ownership_refused", "aux_entered"))
+        ctx.hit("programs_with_done_lists_and_named_frames", len(job["dn"]))
     common.flo_worker(ctx, job, FEATS, [monitors.aux_monitor, monitors.bracket_monitor],
                       nontrivial=lambda d: d.get("aux_activations", 0) >= 3 and sum(v for k, v in d.items() if k.startswith("done_need")) >= 1,
                       sem_flags=("aux_ownership_refused", "aux_entered"))
@@ -131,7 +172,10 @@ def run(ctx):
     items = [(ctx.rng.randrange(1 << 30), i % gen.nfeats(FEATS, ctx)) for i in range(n)]
     susp = [(ctx.rng.randrange(1 << 30), i % gen.nfeats(FEATS_SUSP, ctx)) for i in range(ctx.pick(480, 12000))]
     hs = [ctx.rng.randrange(1 << 30) for _ in range(ctx.pick(96, 3000))]
-    ctx.shard([{"items": items[i::16], "susp": susp[i::16], "houses": hs[i::16]} for i in range(16)], timeout=ctx.pick(300, 1500))
+    dn = [(ctx.rng.randrange(1 << 30), i % gen.nfeats(FEATS, ctx)) for i in range(ctx.pick(320, 12000))]
+    ctx.shard([{"items": items[i::16], "susp": susp[i::16], "houses": hs[i::16], "dn": dn[i::16]} for i in range(16)],
+              timeout=ctx.pick(300, 1500))
+    ctx.floor("programs_with_done_lists_and_named_frames", 100)
     for k, v in {"aux_activations": 100, "aux_runs_checked": 100, "aux_recurs_checked": 100, "aux_exits_checked": 100,
                  "done_need_any": 10, "done_need_all": 10, "done_need_named": 10, "shared_original_reused": 10,
                  "sem_condaux_truncated": 10, "sem_transition_while_suspended": 3,
